@@ -40,6 +40,9 @@ Lines (one output line each)
   psub <id>                     -> ok                                     (on_ok: _signalRules.add)
   pcancel <id>                  -> del <id> | noop                        (cancelSignalNotification)
   meaning <text>                -> none | `;`-separated constraints       (Spec.ruleTextMeaning)
+  mpreset                       -> ok                                     (fresh table of proxies, each with its own _signalRules)
+  mpsub <proxy> <id>            -> ok                                     (on_ok of that proxy)
+  mpcancel <proxy> <id>         -> del <id> | noop                        (cancelSignalNotification on that proxy)
   dreset                        -> ok                                     (fresh client + SPEC daemon, Route/Daemon.lean)
   dadd <cb> <rule>              -> sentadd <text>                         (the text also reaches the daemon)
   ddel <id>                     -> sentremove <text> | keyerror
@@ -192,6 +195,7 @@ structure St where
   sels : List (Option (Str × Str)) := []
   subs : ProxySubs := {}
   sys : System := {}
+  proxies : List ProxySubs := []
 
 def T : Tables := Tables.gen
 
@@ -221,6 +225,18 @@ def sysStep (st : St) (raises : Nat → Cb → Bool) (op : SOp) : St × String :
 def step (st : St) (line : String) : St × String :=
   match Driver.words line with
   | ["dreset"] => ({ st with sys := {} }, "ok")
+  | ["mpreset"] => ({ st with proxies := [] }, "ok")
+  | ["mpsub", p, id] =>
+    match p.toNat?, id.toNat? with
+    | some p, some id => ({ st with proxies := ProxyTable.onOk st.proxies p id }, "ok")
+    | _, _ => (st, "badinput")
+  | ["mpcancel", p, id] =>
+    match p.toNat?, id.toNat? with
+    | some p, some id =>
+      match ProxyTable.cancel st.proxies p id with
+      | (t, some i) => ({ st with proxies := t }, "del " ++ toString i)
+      | (t, none) => ({ st with proxies := t }, "noop")
+    | _, _ => (st, "badinput")
   | ["dstate"] =>
     (st, "bus=" ++ showTexts st.sys.daemon.rules ++ " local=" ++ showTexts st.sys.client.localTexts
       ++ " pending=" ++ toString (st.sys.client.calls.filter (fun p => p.isSome)).length)
